@@ -368,6 +368,12 @@ def run_spec(spec, rec, rng, full):
             bad = f"{r['label']}_undefined"
             judge_mutant(set_at(spec, r, bad), params, rec, dict(base_ctx, mutation="parameter-misspelled"), bad, f"parameter-misspelled:{tag}")
             n += 2
+            # near misses of nested labels: the group a parameter lives in, and a child of the parameter - neither is a parameter
+            existing = {p.label for p in params.all()}
+            for bad, how in ((r["label"].rsplit(".", 1)[0], "group-prefix"), (r["label"] + ".1", "child-of-leaf")):
+                if "." in r["label"] and bad not in existing and bad:
+                    judge_mutant(set_at(spec, r, bad), params, rec, dict(base_ctx, mutation=f"parameter-{how}"), bad, f"parameter-{how}:{tag}")
+                    n += 1
         rec.features[f"{tag}:{r['kind']}"] += 1
     # unique / exclusive megacomplexes
     for d, ds in spec["dataset"].items():
